@@ -138,15 +138,12 @@ def check(ctx):
     o.count()
     okp = False
     if sp:
-        body = [x for x in sp[1].body if not (isinstance(x, ast.Expr) and isinstance(x.value, ast.Constant))]
-        if len(body) == 1 and isinstance(body[0], ast.Return) and isinstance(body[0].value, ast.ListComp):
-            lc = body[0].value
-            gen = lc.generators[0]
-            if len(lc.generators) == 1 and not gen.ifs and is_self_attr(gen.iter, '_buffer') and isinstance(gen.target, ast.Name) \
-                    and ast.unparse(lc.elt) == f'{gen.target.id}[1]':
+        lb = dv.list_builder(sp[1])
+        if lb is not None and not lb['ifs'] and is_self_attr(lb['iter'], '_buffer'):
+            t = lb['target']
+            if isinstance(t, ast.Name) and ast.unparse(lb['elt']) == f'{t.id}[1]':
                 okp = True
-            if len(lc.generators) == 1 and not gen.ifs and is_self_attr(gen.iter, '_buffer') and isinstance(gen.target, ast.Tuple) and len(gen.target.elts) == 2 \
-                    and isinstance(gen.target.elts[1], ast.Name) and ast.unparse(lc.elt) == gen.target.elts[1].id:
+            if isinstance(t, ast.Tuple) and len(t.elts) == 2 and isinstance(t.elts[1], ast.Name) and ast.unparse(lb['elt']) == t.elts[1].id:
                 okp = True          # [part for _, part in self._buffer]
     if not okp:
         o.fail(P, 'Buffer.stored_parts', 'return [x[1] for x in self._buffer]', 'stored_parts does not list the stored parts in list order', file=c.mod.path, line=c.node.lineno)
